@@ -2,7 +2,7 @@
    Only statements here; every proof is [exact <lemma of Proofs/C15*.v>].
    extract_message_size / encode_length / read_ / write_extended_field_value are the definitions
    translated from tcp.py / options.py on every run (coq/Gen); the rest is Model/C15.v. *)
-From Verif Require Import Lib.Py Lib.Tactics Gen.options_ext Gen.tcp_framing Model.C15 Proofs.C15.
+From Verif Require Import Lib.Py Lib.Tactics Gen.options_ext Gen.tcp_framing Model.C15 Proofs.C15 Proofs.C15Gate.
 Open Scope Z_scope.
 
 (* ---- RFC 8323 section 3.2 length coding *)
@@ -92,6 +92,17 @@ Theorem C15_release_abort_fail_requests : forall c m, code m = RELEASE \/ code m
 Proof. exact release_abort_close. Qed.
 Print Assumptions C15_release_abort_fail_requests.
 
+(* over EVERY history of data chunks (any segmentation), outgoing messages and connection loss:
+   once set the settings stay set, and as long as they are unset (no CSM received) nothing at all
+   has been handed to the token manager *)
+Theorem C15_csm_gate_run : forall es c, bytes_ok (spool c) = true ->
+  Forall (fun e => match e with EData d => bytes_ok d = true | _ => True end) es ->
+  let '(c1, o1) := run c es in
+  (remote_settings c <> None -> remote_settings c1 <> None) /\
+  (remote_settings c1 = None -> existsb is_dispatch o1 = false).
+Proof. exact csm_gate_run_stated. Qed.
+Print Assumptions C15_csm_gate_run.
+
 (* ---- Abort and close on the error conditions *)
 Theorem C15_abort_on_oversize : forall c d a t l, header (spool c ++ d) = Some (a, t, l) -> a + t + l > my_max_message_size c ->
   data_received c d = (set_closed (feed c d), [Write (abort_frame txt_overly_large); Close]).
@@ -112,6 +123,14 @@ Theorem C15_abort_on_critical_option : forall os c n v, In (n, v) os -> is_criti
   exists pre post, snd (fst (check_critical_options c os)) = pre ++ Write (abort_frame txt_unknown_critical_option) :: Close :: post.
 Proof. exact check_critical_aborts. Qed.
 Print Assumptions C15_abort_on_critical_option.
+
+(* unknown critical option in a CSM (numbers below 2^64, i.e. any that fit a frame): Abort carrying Bad-CSM-Option, then close *)
+Theorem C15_abort_on_critical_csm_option : forall os c st n v, In (n, v) os -> is_critical n = true ->
+  (forall n' v', In (n', v') os -> 0 <= n' < 2 ^ 64) ->
+  exists pre post b n1, snd (fst (process_csm_options c st os)) = pre ++ Write b :: Close :: post /\
+    is_critical n1 = true /\ serialize (abort_msg txt_option_not_supported (Some n1)) = Ok b.
+Proof. exact csm_critical_aborts. Qed.
+Print Assumptions C15_abort_on_critical_csm_option.
 
 (* ---- non-vacuity *)
 Definition ex_get : msg := {| code := 1; token := [170; 187]; opts := [(11, [116; 101; 109; 112]); (12, []); (60, [1; 0])]; payload := [] |}.
